@@ -35,7 +35,11 @@ impl<const N: usize> AntiAmplifier<N> {
         if self.state.load(Ordering::Acquire) != Self::NORMAL {
             return;
         }
+        #[cfg(genmeta_gm_quic_verif)]
+        qbase::verif::sched_point("AntiAmplifier::on_rcvd:after-state-load");
         self.credit.fetch_add(amount * N, Ordering::AcqRel);
+        #[cfg(genmeta_gm_quic_verif)]
+        qbase::verif::sched_point("AntiAmplifier::on_rcvd:before-wake");
         self.tx_waker.wake_by(Signals::CREDIT);
     }
 
@@ -46,8 +50,12 @@ impl<const N: usize> AntiAmplifier<N> {
             Self::GRANTED => Ok(Some(usize::MAX)),
             Self::ABORTED => Ok(None),
             Self::NORMAL => {
+                #[cfg(genmeta_gm_quic_verif)]
+                qbase::verif::sched_point("AntiAmplifier::balance:after-state-load");
                 let credit = self.credit.load(Ordering::Acquire);
                 if credit == 0 {
+                    #[cfg(genmeta_gm_quic_verif)]
+                    qbase::verif::sched_point("AntiAmplifier::balance:before-recheck");
                     // 再次检查，以防grant、abort在self.waker赋值前被调用，导致任务死掉
                     let state = self.state.load(Ordering::Acquire);
                     if state == Self::NORMAL {
@@ -70,6 +78,8 @@ impl<const N: usize> AntiAmplifier<N> {
 
     pub fn on_sent(&self, amount: usize) {
         if self.state.load(Ordering::Acquire) == Self::NORMAL {
+            #[cfg(genmeta_gm_quic_verif)]
+            qbase::verif::sched_point("AntiAmplifier::on_sent:after-state-load");
             self.credit.fetch_sub(amount, Ordering::AcqRel);
         }
     }
@@ -85,6 +95,8 @@ impl<const N: usize> AntiAmplifier<N> {
             )
             .is_ok()
         {
+            #[cfg(genmeta_gm_quic_verif)]
+            qbase::verif::sched_point("AntiAmplifier::grant-or-abort:before-wake");
             self.tx_waker.wake_by(Signals::CREDIT);
         }
     }
@@ -100,6 +112,8 @@ impl<const N: usize> AntiAmplifier<N> {
             )
             .is_ok()
         {
+            #[cfg(genmeta_gm_quic_verif)]
+            qbase::verif::sched_point("AntiAmplifier::grant-or-abort:before-wake");
             self.tx_waker.wake_by(Signals::CREDIT);
         }
     }
